@@ -134,6 +134,8 @@ func init() {
 					{Src: "../rel ative/t\tab", Dst: "/usr/bin/rel-target", Type: "symlink"},
 					{Src: "/opt/x", Dst: "/usr/bin/my link", Type: "symlink"},
 					{Dst: "/opt/my dir/sub#dir", Type: "dir"},
+					{Dst: "/etc/app/ghost.conf", Type: "ghost"},
+					{Dst: "/etc/ghost-with-mode", Type: "ghost", Mode: 0o600, Owner: "app"},
 					{Src: "etc/app.conf", Dst: "/opt/owner31", Owner: strings.Repeat("o", 31), Group: strings.Repeat("g", 31)},
 					{Src: "etc/app.conf", Dst: "/opt/group-nonascii", Owner: "app", Group: "gr\u00fcppe"},
 					{Dst: "/opt/dir-owner31", Type: "dir", Owner: strings.Repeat("o", 31), Group: strings.Repeat("g", 31)},
